@@ -106,7 +106,7 @@ func (d *DevDriver) NormalizeRealm(ctx context.Context, r *schema.Realm) (nr *sc
 }
 
 // NormalizeSchema returns the normal representation of the given database. See NormalizeRealm for more info.
-func (d *DevDriver) NormalizeSchema(ctx context.Context, s *schema.Schema) (*schema.Schema, error) {
+func (d *DevDriver) NormalizeSchema(ctx context.Context, s *schema.Schema) (_ *schema.Schema, err error) {
 	restore, err := d.Driver.Snapshot(ctx)
 	if err != nil {
 		return nil, err
